@@ -570,3 +570,86 @@ Definition trie_remove_dec (hn f : bool) : bool * bool * bool := if hn then (tru
 Definition ht_remove_dec (hk hv fk fv : bool) : bool * bool * bool := (hk && fk, hv && fv, true).
 (* muggle_avl_tree_erase_node on the leaf that leaves the tree: the same two callback decisions *)
 Definition avl_erase_dec (hk hv fk fv : bool) : bool * bool := (hk && fk, hv && fv).
+
+(* ====================================================================== *)
+(* Allocation failure inside insert / put (a constant-size node pool that is exhausted, or malloc
+   returning NULL).  An operation carries an oracle: [None] = every allocation succeeds, [Some b] = the
+   first b node allocations of this call succeed and the next one fails.
+   Tree and table allocate one node per insert: a failed allocation returns NULL and nothing has changed
+   (the duplicate test comes first).  The trie allocates one node per missing key byte: when an
+   allocation fails in the middle of a key the code returns NULL and LEAVES the nodes it has already
+   created in place (they carry no data; muggle_trie_destroy releases them) -- modelled as it is; the
+   theorems (ProofsAlloc.v) are about the map view. *)
+Inductive opa (K : Type) := OpA (o : op K) (budget : option nat).
+Arguments OpA {K}.
+Definition alloc_ok (b : option nat) : bool := match b with Some O => false | _ => true end.
+
+Definition avl_insert_o (ok : bool) (x xv : Z) (t : tree) : tree * bool := if ok then avl_insert x xv t else (t, false).
+Definition ht_put_o (ok : bool) (hash : Z -> Z) (t : ht) (k v : Z) : ht * bool := if ok then ht_put hash t k v else (t, false).
+
+Definition avl_step_o (t : tree) (a : opa Z) : tree * res :=
+  match a with
+  | OpA (Ins k v) b => let (t', ok) := avl_insert_o (alloc_ok b) k v t in (t', RIns ok)
+  | OpA o _ => avl_step t o
+  end.
+Definition ht_step_o (hash : Z -> Z) (t : ht) (a : opa Z) : ht * res :=
+  match a with
+  | OpA (Ins k v) b => let (t', ok) := ht_put_o (alloc_ok b) hash t k v in (t', RIns ok)
+  | OpA o _ => ht_step hash t o
+  end.
+
+(* the while loop of muggle_trie_insert with b allocations left *)
+Fixpoint ins_walk_o (b : nat) (t : trie) (key : list Z) (v : Z) : trie * bool :=
+  match key with
+  | [] => (TNode (Some v) (t_children t), true)
+  | c :: rest =>
+      match cget (byte_index c) (t_children t) with
+      | Some ch =>
+          let (ch', ok) := ins_walk_o b ch rest v in
+          (TNode (t_data t) (cset (byte_index c) ch' (t_children t)), ok)
+      | None =>
+          match b with
+          | O => (t, false)                 (* allocate_node returned NULL: return NULL *)
+          | S b' =>
+              let (ch', ok) := ins_walk_o b' trie_empty rest v in
+              (TNode (t_data t) (cset (byte_index c) ch' (t_children t)), ok)
+          end
+      end
+  end.
+
+Definition trie_insert_o (b : nat) (root : trie) (key : list Z) (v : Z) : trie * bool :=
+  match key with
+  | [] =>
+      match cget 0 (t_children root) with
+      | Some ch => (TNode (t_data root) (cset 0 (TNode (Some v) (t_children ch)) (t_children root)), true)
+      | None =>
+          match b with
+          | O => (root, false)
+          | S _ => (TNode (t_data root) (cset 0 (TNode (Some v) []) (t_children root)), true)
+          end
+      end
+  | _ => ins_walk_o b root key v
+  end.
+
+(* an insert of a key of n bytes allocates at most max n 1 nodes *)
+Definition budget_of (b : option nat) (key : list Z) : nat := match b with Some n => n | None => S (length key) end.
+
+Definition trie_step_o (t : trie) (a : opa (list Z)) : trie * res :=
+  match a with
+  | OpA (Ins k v) b => let (t', ok) := trie_insert_o (budget_of b k) t k v in (t', RIns ok)
+  | OpA o _ => trie_step t o
+  end.
+
+Fixpoint rung {S O X} (step : S -> O -> S * X) (s : S) (ops : list O) : S * list X :=
+  match ops with
+  | [] => (s, [])
+  | o :: r => let (s1, x) := step s o in let (s2, xs) := rung step s1 r in (s2, x :: xs)
+  end.
+
+(* nodes drawn from the node pool (what a constant-size pool runs out of) *)
+Fixpoint avl_size (t : tree) : nat := match t with Leaf => O | Node l _ _ _ r => S (avl_size l + avl_size r) end.
+Fixpoint trie_nodes (t : trie) : nat :=
+  match t with
+  | TNode _ ch => (fix go (l : list (Z * trie)) : nat :=
+                     match l with [] => O | (_, c) :: r => S (trie_nodes c + go r) end) ch
+  end.
